@@ -256,6 +256,28 @@ fn build_wal_base(rng: &mut Rng) -> Result<Base, String> {
     let mut written = 0usize;
     let mut counter = 0u64;
     let mut universe = BTreeSet::new();
+    // One value carries the image of a complete log record of another database (an application
+    // that stores log chunks or nested database files as values). The sizes are chosen so that one
+    // flipped bit in the length field of this batch's log record makes "header + length" point at
+    // the embedded image. The key of the embedded record is never written here.
+    {
+        let forged_key = b"zz-forged-key".to_vec();
+        let other_fs = SimFs::from_image(&dbutil::root_image());
+        let mut other = Session::new(other_fs.clone(), cfg);
+        other.open()?;
+        other.put(&forged_key, b"FORGED-value-never-written-here!")?;
+        other.close();
+        let other_image = other_fs.image();
+        let embedded: Vec<u8> = other_image.files.iter().find(|(p, b)| classify(p) == PathClass::Wal && !b.is_empty()).map(|(_, b)| b.to_vec()).unwrap_or_default();
+        if embedded.len() == 64 {
+            let mut value = vec![b'p'; 20];
+            value.extend_from_slice(&embedded);
+            let blob_key = b"blob-key".to_vec();
+            universe.insert(blob_key.clone());
+            universe.insert(forged_key);
+            sess.write(vec![(blob_key, Some(value))])?;
+        }
+    }
     while written < target {
         watch::tick();
         let mut ops: Vec<WriteOp> = vec![];
